@@ -99,7 +99,7 @@ package util
 // (the deferred clean-up closure has no contract: its body is encoded in place at the return)
 //@ func Save
 //@   props C15
-//@   requires c != nil
+//@   requires c != nil && c.Metadata != nil && filesNonNilList(c.Templates) && filesNonNilList(c.Files) && filesNonNilList(c.Raw)
 //@   ensures [failed-save-leaves-no-archive] result1 != nil && result0 != "" ==> GremovedPaths[result0]
 
 // ---- C04: coalescing never links a table of the chart's stored defaults into the result: the table
